@@ -124,7 +124,7 @@ pub fn random_spec(n: usize, u: &Universe, rng: &mut Rng) -> Spec {
             nfs.push(cand);
         }
     }
-    let amounts = [0u64, 0, 1, 50, 100, 1 << 40, 1 << 63, P_MINUS_1, P_MINUS_1];
+    let amounts = [0u64, 0, 0, 1, 50, 100, 100, 7_000, 1 << 40, 1 << 40, 1 << 62, 1 << 63, P_MINUS_1];
     let slots = (0..2 * n)
         .map(|_| {
             let a = *rng.pick(&amounts);
